@@ -320,8 +320,17 @@ class ReqGen:
         if r.random() < 0.3:
             s = r.choice(out)
             f = next(x for x in od["fields"] if x["name"] == s["name"])
+            share = bool(s["sub"]) and not s.get("frag") and r.random() < 0.5
             again = {"key": s["key"], "name": s["name"], "args": s["args"], "dirs": self.quses(self.qnames(f), avoid=[u["name"] for u in s["dirs"]]),
-                     "sub": self.sub_for(f, depth)}
+                     "sub": [] if share else self.sub_for(f, depth)}
+            if share:
+                # both occurrences spread the SAME named fragment: it is collected once for the merged field, so the fields
+                # inside it (and their query-side directives) count once
+                self.nfrag = getattr(self, "nfrag", 0) + 1
+                fname = f"Fz{self.nfrag}"
+                self.frag_defs = getattr(self, "frag_defs", [])
+                self.frag_defs.append((fname, base(f["type"]), s["sub"]))
+                s["frag"] = fname; again["frag"] = fname; again["sub"] = []
             out.append(again)
         return out
 
@@ -330,11 +339,15 @@ class ReqGen:
         def S(sel):
             a = ("(" + ", ".join(f"{k}: {print_value(v)}" for k, v in sel["args"]) + ")") if sel["args"] else ""
             sub = (" { " + " ".join(S(x) for x in sel["sub"]) + " }") if sel["sub"] else ""
+            if sel.get("frag"): sub = " { ..." + sel["frag"] + " }"
             return f"{sel['name']}{a}{D(sel['dirs'])}{sub}"
         vd = ""
         if self.vardefs:
             vd = "(" + ", ".join(f"${v['name']}: {tstr(v['type'])}" + (" = " + print_value(v["default"]) if v["default"] else "") for v in self.vardefs) + ")"
-        return f"query Q{vd} {{ " + " ".join(S(x) for x in sels) + " }"
+        body = f"query Q{vd} {{ " + " ".join(S(x) for x in sels) + " }"
+        for fname, ftype, fsub in getattr(self, "frag_defs", []):
+            body += f"\nfragment {fname} on {ftype} {{ " + " ".join(S(x) for x in fsub) + " }"
+        return body
 
 _uid = itertools.count()
 async def build(g, seed):
